@@ -46,9 +46,13 @@ type Stats struct {
 	SolverTime    time.Duration
 	SolverErrors  []string
 	Steps         int64
+	DomainDecisions, DomainRechecks, DomainDisagreements int
 }
 
 // RunJobs explores all jobs on n workers.
+// RecheckRate is the fraction of byte-domain verdicts re-checked by the solver.
+var RecheckRate = 0.02
+
 func RunJobs(p *Program, jobs []*Job, n int, backend string, wantFixtures bool, logDir string) ([]*JobResult, *Stats, error) {
 	if n < 1 {
 		n = 1
@@ -81,6 +85,8 @@ func RunJobs(p *Program, jobs []*Job, n int, backend string, wantFixtures bool, 
 				return
 			}
 			defer w.Close()
+			w.RecheckRate = RecheckRate
+			w.rngState = uint64(wi)*7919 + 12345
 			for {
 				mu.Lock()
 				i := next
@@ -108,6 +114,9 @@ func RunJobs(p *Program, jobs []*Job, n int, backend string, wantFixtures bool, 
 			stats.SolverTime += w.Solver.Time
 			stats.SolverErrors = append(stats.SolverErrors, w.Solver.Errors...)
 			stats.Steps += w.Steps
+			stats.DomainDecisions += w.DomainDecisions
+			stats.DomainRechecks += w.DomainRechecks
+			stats.DomainDisagreements += w.DomainDisagreements
 			mu.Unlock()
 		}(wi)
 	}
@@ -218,6 +227,8 @@ func NativeReplay(repoDir, harnessDir string, fixtures []*Fixture, race bool, ti
 	return results, nil
 }
 
+var engineOnly = map[string]bool{"uncaught-panic": true, "use-after-put": true, "pool-double-put": true, "deadlock": true, "unlock-unlocked": true, "unbounded-recursion": true}
+
 // CompareOutputs reports mismatches between engine-predicted and native outputs.
 func CompareOutputs(fx *Fixture, r *ReplayResult) []string {
 	var diffs []string
@@ -226,6 +237,13 @@ func CompareOutputs(fx *Fixture, r *ReplayResult) []string {
 	}
 	if r.Skipped {
 		return []string{"native run hit a false assumption (fixture does not satisfy the path condition)"}
+	}
+	if fx.Approx {
+		// outputs of approximate paths are not predicted; the assertions still must hold natively
+		if len(r.Failed) > 0 && len(fx.Viol) == 0 {
+			return []string{fmt.Sprintf("assertions failed natively on an approximate path: %v", r.Failed)}
+		}
+		return nil
 	}
 	keys := map[string]bool{}
 	for k := range fx.Out {
@@ -244,7 +262,12 @@ func CompareOutputs(fx *Fixture, r *ReplayResult) []string {
 			diffs = append(diffs, fmt.Sprintf("%s: engine=%s native=%s", k, fx.Out[k], r.Out[k]))
 		}
 	}
-	ev := append([]string(nil), fx.Viol...)
+	var ev []string
+	for _, l := range fx.Viol {
+		if !engineOnly[l] {
+			ev = append(ev, l)
+		}
+	}
 	nv := append([]string(nil), r.Failed...)
 	sort.Strings(ev)
 	sort.Strings(nv)
